@@ -15,7 +15,7 @@ mount  := bare | mux
 srv    := (srv <prefix|-> (f <filter>…) (regs <reg>…) (late <reg>…))      `-` = NewServer
 filter := pass | ctx | failpre | (failer <status>) | failpost
 reg    := (r (<seg>…) (m <method>) | (f <name>) | (a <name> <0|1>))      seg := (<name> <0|1>)
-req    := (req <verb> (h (<name> <value>)…) (raw <RawPath> <Path>) (p <segment>…) (q (<k> <v>)…) (dec <method>…) <implOk 0|1> (x …))
+req    := (req <verb> (h (<name> <value>)…) (raw <URL.EscapedPath()> <URL.Path>) (p <segment>…) (q (<k> <v>)…) (dec <method>…) <implOk 0|1> (x …))
           `p` = the resource path the property speaks about (used by route-spec only); `(x …)` = how the
           harness put the request on the wire (wire segments, body class, tunnelled), ignored here
 ```
@@ -124,7 +124,7 @@ def reqOf : Sexp → Option RawReq
   | .list [.atom "req", v, .list (.atom "h" :: hs), .list [.atom "raw", rp, up], .list (.atom "p" :: ps),
            .list (.atom "q" :: qs), .list (.atom "dec" :: ds), ok, _harnessOnly] => do
     let verb ← decAtom v
-    pure { rawPath := ← decAtom rp, urlPath := ← decAtom up,
+    pure { escapedPath := ← decAtom rp, urlPath := ← decAtom up,
            rest := { verb := verbOf verb, headers := ← hs.mapM pairOf, path := ← ps.mapM decAtom,
                      query := ← qs.mapM pairOf, decodes := ← ds.mapM methodOfAtom, implOk := ← boolOfAtom ok } }
   | _ => none
@@ -204,7 +204,7 @@ def opRouteSpec (args : List Sexp) : String :=
       -- the spec knows trees, not servers: the tree is what the registrations describe
       let srv := buildServer constsV2 sp
       decisionStr (Spec.decide validateRor2Input srv.roots raw.rest) ++
-        " specified=" ++ (if Spec.specified srv.roots raw.rest then "1" else "0")
+        " specified=" ++ (if Spec.specified validateRor2Input srv.roots raw.rest then "1" else "0")
     | _, _ => "bad-op"
   | _ => "bad-op"
 
